@@ -57,6 +57,7 @@ type Contract struct {
 	Requires []*Clause
 	ReadonlyIf *Clause // when it holds at entry the function writes no pre-existing frame-checked object; otherwise anything
 	Ghosts   []string  // logical variables: universally quantified integer constants of the contract
+	Private  []string  // list parameters no one else holds a reference to (checked syntactically at call sites and in the body)
 	Keeps    []string  // T.f / T.*: fields no function reachable from this one stores into (checked on the call graph at each call site)
 	Sites    []*Clause // assertions that must hold immediately before the named calls (//@ at NAME: assert expr)
 	Always   []*Clause // must hold after every call made by the function (crash-consistency style invariants over ghost state)
@@ -77,7 +78,7 @@ type Contract struct {
 
 func (c *Contract) flag(s string) bool { return c != nil && c.Flags[s] }
 
-var clauseRe = regexp.MustCompile(`^(at|keeps|ghost|always|readonly-if|requires|ensures|invariant|decreases|modifies|let|props|loop|replay|pure|trusted|maypanic|nofunctional|nosafety|readonly|runes|noframe|nocallframe|noerrprop|flags|assume|check)\b`)
+var clauseRe = regexp.MustCompile(`^(at|keeps|private|ghost|always|readonly-if|requires|ensures|invariant|decreases|modifies|let|props|loop|replay|pure|trusted|maypanic|nofunctional|nosafety|readonly|runes|noframe|nocallframe|noerrprop|flags|assume|check)\b`)
 var labelRe = regexp.MustCompile(`^@([A-Za-z0-9_.\-]+)\s*`)
 var propsRe = regexp.MustCompile(`^\{([A-Z0-9, ]+)\}\s*`)
 
@@ -88,6 +89,7 @@ var filePreds = map[string]*Pred{}
 // fileGhosts: ghost state declared in contract files (//@ ghostvar name Sort): models of the outside world
 // (was the target file replaced, what was written, ...). Only contracts read or write it.
 var fileGhosts = map[string]string{}
+var fileGhostTypes = map[string]string{}
 
 func parseContractFile(path, pkg string) ([]*Contract, error) {
 	f, err := os.Open(path)
@@ -189,8 +191,11 @@ func parseContractFile(path, pkg string) ([]*Contract, error) {
 		}
 		if strings.HasPrefix(tb, "ghostvar ") {
 			f := strings.Fields(tb)
-			if len(f) == 3 {
+			if len(f) == 3 || len(f) == 4 {
 				fileGhosts[f[1]] = f[2]
+				if len(f) == 4 {
+					fileGhostTypes[f[1]] = f[3] // Go-level reading of the value: "list" = *list.List
+				}
 			}
 			continue
 		}
@@ -257,6 +262,8 @@ func parseContractFile(path, pkg string) ([]*Contract, error) {
 			cur.Props = strings.Fields(rest)
 		case "ghost":
 			cur.Ghosts = append(cur.Ghosts, strings.Fields(rest)...)
+		case "private":
+			cur.Private = append(cur.Private, strings.Fields(strings.ReplaceAll(rest, ",", " "))...)
 		case "keeps":
 			cur.Keeps = append(cur.Keeps, strings.Fields(strings.ReplaceAll(rest, ",", " "))...)
 		case "loop":
